@@ -175,12 +175,13 @@ func (c *chatHandler) handleSessionCommand(packet *chat.SessionPlayerCommand, un
 		if !hasLastSeenMessages {
 			return nil
 		}
-		if packet.Signed() {
-			if c.disconnectIllegalProtocolState(c.player) {
-				c.log.Info("A plugin tried to deny a command with signable component(s). This is not supported with forceKeyAuthentication enabled.")
-			}
+		if packet.Signed() && c.disconnectIllegalProtocolState(c.player) {
+			c.log.Info("A plugin tried to deny a command with signable component(s). This is not supported with forceKeyAuthentication enabled.")
 			return nil
 		}
+		// With forceKeyAuthentication disabled a consumed signed command is dropped like any other,
+		// but its 'last seen' update (which by now also carries the held acknowledgements) must
+		// still reach the backend.
 
 		// An unsigned command with a 'last seen' update will not happen as of 1.20.5+, but for earlier versions - we still
 		// need to pass through the acknowledgement. A ChatAcknowledgement only carries an offset, so we must gate on the
